@@ -319,17 +319,19 @@ static void ep_mul_reg_glv(ep_t r, const ep_t p, const bn_t k) {
 
 #if defined(EP_PLAIN) || defined(EP_SUPER)
 
-static void ep_mul_reg_imp(ep_t r, const ep_t p, const bn_t k) {
-	bn_t m;
+static void ep_mul_reg_imp(ep_t r, const ep_t p, const bn_t _k) {
+	bn_t m, k;
 	int i, j, n;
 	int8_t s, reg[1 + RLC_CEIL(RLC_FP_BITS + 1, RLC_WIDTH - 1)];
 	ep_t t[1 << (RLC_WIDTH - 2)], u, v;
 	size_t l;
 
 	bn_null(m);
+	bn_null(k);
 
 	RLC_TRY {
 		bn_new(m);
+		bn_new(k);
 		ep_new(u);
 		ep_new(v);
 		/* Prepare the precomputation table. */
@@ -342,6 +344,16 @@ static void ep_mul_reg_imp(ep_t r, const ep_t p, const bn_t k) {
 
 		ep_curve_get_ord(m);
 		n = bn_bits(m);
+
+		/* The recoding holds as many bits as the order: reduce longer scalars. */
+		bn_copy(k, _k);
+		if (bn_bits(k) > n) {
+			bn_abs(k, _k);
+			bn_mod(k, k, m);
+			if (bn_sign(_k) == RLC_NEG) {
+				bn_neg(k, k);
+			}
+		}
 
 		/* Make a copy of the scalar for processing. */
 		bn_abs(m, k);
@@ -397,6 +409,7 @@ static void ep_mul_reg_imp(ep_t r, const ep_t p, const bn_t k) {
 			ep_free(t[i]);
 		}
 		bn_free(m);
+		bn_free(k);
 		ep_free(u);
 		ep_free(v);
 	}
